@@ -308,7 +308,7 @@ class Stabilizer(StateRepresentationBase):
         """
         self._tableau = sfc.partial_trace(
             self._tableau,
-            keep=qubit_positions,
+            keep=[q for q in range(self.n_qubits) if q not in qubit_positions],
             dims=self.n_qubits * [2],
             measurement_determinism=measurement_determinism,
         )
@@ -728,7 +728,7 @@ class MixedStabilizer(StateRepresentationBase):
                 p_i,
                 sfc.partial_trace(
                     t_i,
-                    keep=qubit_positions,
+                    keep=[q for q in range(self.n_qubits) if q not in qubit_positions],
                     dims=self.n_qubits * [2],
                     measurement_determinism=measurement_determinism,
                 ),
